@@ -73,7 +73,7 @@ ReMatch(r, w) ==
 
 -----------------------------------------------------------------------------
 (* the logical field behind a schema field: tagi / numi / flagi are the same values indexed differently *)
-FieldOf(f) == CASE f = "tagi" -> "tag" [] f = "numi" -> "num" [] f = "flagi" -> "flag" [] OTHER -> f
+FieldOf(f) == CASE f = "tagi" -> "tag" [] f = "numi" -> "num" [] f = "flagi" -> "flag" [] f = "nf" -> "title" [] OTHER -> f
 Vals(d, f) == LET g == FieldOf(f) IN IF g = "id" THEN <<d.id>> ELSE IF g \in DOMAIN d THEN d[g] ELSE <<>>
 IsWordField(f) == FieldOf(f) \in {"tag", "cat"}
 
@@ -87,6 +87,23 @@ AbsI(x) == IF x < 0 THEN -x ELSE x
 PhraseMatch(toks, ts, slop) ==
   IF slop = 0 \/ Len(ts) # 2 THEN \E p \in 1..Len(toks) : PhraseAt(toks, ts, p)
   ELSE \E pa, pb \in 1..Len(toks) : toks[pa] = ts[1] /\ toks[pb] = ts[2] /\ pa # pb /\ AbsI(pb - pa - 1) <= slop
+
+\* three or more terms with slop: the documentation ("the slop is a budget between all terms", "A is moved 1 position and B is
+\* moved 1 position, so the slop is 2") supports two bounds only - the exact phrase matches, and a match needs an assignment of
+\* distinct positions that can be turned into the phrase by moving terms by at most `slop` positions in total
+\* (ns = the positions minus the offsets of their terms: the phrase stands at b iff all are b)
+RECURSIVE SumAbs(_, _, _)
+SumAbs(ns, b, i) == IF i > Len(ns) THEN 0 ELSE AbsI(ns[i] - b) + SumAbs(ns, b, i + 1)
+RECURSIVE WithinBudgetFrom(_, _, _, _, _)
+WithinBudgetFrom(toks, ts, ps, ns, slop) ==
+  LET j == Len(ps) + 1 IN
+  IF j > Len(ts) THEN \E k \in 1..Len(ns) : SumAbs(ns, ns[k], 1) <= slop
+  ELSE \E p \in 1..Len(toks) :
+         /\ toks[p] = ts[j] /\ p \notin SeqSet(ps)
+         /\ WithinBudgetFrom(toks, ts, Append(ps, p), Append(ns, p - j), slop)
+WithinBudget(toks, ts, slop) == WithinBudgetFrom(toks, ts, <<>>, <<>>, slop)
+PhraseExact(toks, ts) == \E p \in 1..Len(toks) : PhraseAt(toks, ts, p)
+IsSlopPhrase3(q) == q.k = "phrase" /\ Len(q.ts) >= 3 /\ Has(q, "slop") /\ q.slop > 0
 
 \* Prepare: resolve fuzzy / regex / phrase-prefix leaves against the vocabulary
 \*   words  = the set of words of the word field, tokmap = token -> its letters (record)
@@ -115,6 +132,11 @@ Match(q, d) ==
                                                   /\ p + Len(q.ts) <= Len(toks)
                                                   /\ toks[p + Len(q.ts)] \in q.last
     [] q.k = "range"   -> \E i \in 1..Len(Vals(d, q.f)) : InLo(q.f, q.lo, Vals(d, q.f)[i]) /\ InHi(q.f, q.hi, Vals(d, q.f)[i])
+    \* range over the JSON path js.v (the num values) with f64 bounds given in halves (h = 2 * bound)
+    [] q.k = "jrange"  -> \E i \in 1..Len(Vals(d, "num")) :
+                            LET v2 == 2 * Vals(d, "num")[i] IN
+                            /\ (CASE q.lo.b = "in" -> v2 >= q.lo.h [] q.lo.b = "ex" -> v2 > q.lo.h [] OTHER -> TRUE)
+                            /\ (CASE q.hi.b = "in" -> v2 <= q.hi.h [] q.hi.b = "ex" -> v2 < q.hi.h [] OTHER -> TRUE)
     [] q.k = "set"     -> \E i \in 1..Len(Vals(d, q.f)) : Vals(d, q.f)[i] \in SeqSet(q.ts)
     [] q.k = "wordset" -> \E i \in 1..Len(Vals(d, q.f)) : Vals(d, q.f)[i] \in q.ws
     [] q.k = "exists"  -> Vals(d, q.f) # <<>>
